@@ -58,7 +58,8 @@ theorem mem_cand (names : List Str) (x : Str) (ix : Nat) (hix : ix < names.lengt
 /-- the matcher's state after `j` characters of the name `x` -/
 def KwInv (names : List Str) (x : Str) (j : Nat) (k : KwSt) : Prop :=
   k.kws = names ∧ k.cur = x.take j ∧
-  (match k.expected with | some e => e | none => List.range names.length) = cand names (x.take j)
+  (match k.expected with | some e => e | none => List.range names.length) = cand names (x.take j) ∧
+  (0 < j → ∃ e, k.expected = some e)
 
 theorem take_succ_eq (x : Str) (j : Nat) (h : j < x.length) : x.take j ++ [x[j]] = x.take (j + 1) := by
   simp [List.take_append_getElem]
@@ -96,7 +97,7 @@ theorem kwAdd_name (names : List Str) (x : Str) (ix : Nat) (hix : ix < names.len
     (j : Nat) (hj : j < x.length) (k : KwSt) (hk : KwInv names x j k) :
     ∃ k' r, kwAdd k x[j] = (k', r) ∧ KwInv names x (j + 1) k' ∧
       (r = .T ∨ (r = .Cont ∧ j + 1 = x.length)) := by
-  obtain ⟨h1, h2, h3⟩ := hk
+  obtain ⟨h1, h2, h3, _⟩ := hk
   have hne : cand names (x.take (j + 1)) ≠ [] := List.ne_nil_of_mem (mem_cand names x ix hix hx (j + 1))
   have hnew : kwNew k x[j] = cand names (x.take (j + 1)) := by
     unfold kwNew
@@ -108,7 +109,7 @@ theorem kwAdd_name (names : List Str) (x : Str) (ix : Nat) (hix : ix < names.len
     | cons a b => rfl
   rw [kwAdd_nonempty k x[j] hemp, hnew]
   have hinv : KwInv names x (j + 1) { kws := k.kws, expected := some (cand names (x.take (j + 1))), cur := k.cur ++ [x[j]] } :=
-    ⟨h1, by rw [h2, take_succ_eq x j hj], rfl⟩
+    ⟨h1, by rw [h2, take_succ_eq x j hj], rfl, fun _ => ⟨_, rfl⟩⟩
   by_cases hlen : (cand names (x.take (j + 1))).length > 1
   · exact ⟨_, .T, by simp [hlen], hinv, Or.inl rfl⟩
   · -- a single candidate: it is the name itself
@@ -228,7 +229,7 @@ theorem lexStep_name_first (names : List Str) (x : Str) (ix : Nat) (hix : ix < n
     (hin : names.contains x = true) (hlen : 0 < x.length) (hc : NameStart (x[0])) :
     ∃ s', lexStep names (x[0]) {} = .ok s' ∧
       ((∃ k', s' = varSt x 1 k' ∧ KwInv names x 1 k') ∨ (s' = doneSt x ∧ 1 = x.length)) := by
-  have hk0 : KwInv names x 0 { kws := names } := ⟨rfl, by simp, by simp [cand_nil]⟩
+  have hk0 : KwInv names x 0 { kws := names } := ⟨rfl, by simp, by simp [cand_nil], fun h => absurd h (by omega)⟩
   obtain ⟨k', r, hadd, hinv, hr⟩ := kwAdd_name names x ix hix hx 0 hlen { kws := names } hk0
   have hne : names.isEmpty = false := names_ne_nil names ix hix
   have hq' : (x[0] != '"') = true := by simp [bne, hc.quote]
@@ -384,7 +385,7 @@ theorem kwAdd_empty (k : KwSt) (ch : Char) (h : (kwNew k ch).isEmpty = true) :
 theorem lexStep_bool_departs (vars : List Str) (x B : Str) (iB : Nat) (hg : BoolGivesUp B iB)
     (d : Nat) (hd : Departs x B d) (k : KwSt) (hk : KwInv boolKws B d k) :
     lexStep vars (x[d]'hd.ltx) (boolSt x d k) = .ok resetSt := by
-  obtain ⟨h1, h2, h3⟩ := hk
+  obtain ⟨h1, h2, h3, _⟩ := hk
   have hne := hd.differ hd.ltx hd.ltB
   obtain ⟨g1, g2⟩ := hg d (x[d]'hd.ltx) hd.ltB hd.pos hne
   have hnew : kwNew k (x[d]'hd.ltx) = [] := by
@@ -415,7 +416,7 @@ structure NameStart0 (c : Char) : Prop where
 theorem lexStep_name_restart (names : List Str) (x : Str) (ix : Nat) (hix : ix < names.length) (hx : names.getD ix [] = x)
     (hlen : 1 < x.length) (hc : NameStart0 (x[0])) :
     ∃ k', lexStep names (x[0]) resetSt = .ok (varSt x 1 k') ∧ KwInv names x 1 k' := by
-  have hk0 : KwInv names x 0 { kws := names } := ⟨rfl, by simp, by simp [cand_nil]⟩
+  have hk0 : KwInv names x 0 { kws := names } := ⟨rfl, by simp, by simp [cand_nil], fun h => absurd h (by omega)⟩
   obtain ⟨k', r, hadd, hinv, hr⟩ := kwAdd_name names x ix hix hx 0 (by omega) { kws := names } hk0
   have hrT : r = .T := by
     rcases hr with h | ⟨_, hend⟩
@@ -489,7 +490,7 @@ theorem lex_name_tf (names : List Str) (x B : Str) (iB : Nat) (hiB : iB < boolKw
   have hx : names.getD ix [] = x := by simp [List.getD, hix, hxi]
   -- the first character enters the Boolean class
   have hB0 : 0 < B.length := by have := hd.ltB; omega
-  have hk0 : KwInv boolKws B 0 { kws := boolKws } := ⟨rfl, by simp, by simp [cand_nil]⟩
+  have hk0 : KwInv boolKws B 0 { kws := boolKws } := ⟨rfl, by simp, by simp [cand_nil], fun h => absurd h (by omega)⟩
   have hch0 : x[0] = B[0] := getElem_of_take_eq x B d 0 hd.agree (by have := hd.pos; omega) (by omega) hB0
   obtain ⟨kb, r, haddb, hinvb, hr⟩ := kwAdd_name boolKws B iB hiB hB 0 hB0 { kws := boolKws } hk0
   have hrT : r = .T := by
